@@ -240,8 +240,12 @@ void ezc3d::ParametersNS::Parameters::write(std::fstream &f) const
 
     // Write each groups
     std::streampos dataStartPosition; // Special parameter in POINT group
-    for (size_t i=0; i < nbGroups(); ++i)
+    for (size_t i=0; i < nbGroups(); ++i){
+        // Group ids which are not used in the file are held by unnamed empty groups; a record with an empty name would end the section
+        if (group(i).name().size() == 0 && group(i).nbParameters() == 0)
+            continue;
         group(i).write(f, -static_cast<int>(i+1), dataStartPosition);
+    }
 
     // Move the cursor to a beginning of a block
     std::streampos actualPos(f.tellg());
